@@ -45,9 +45,15 @@ def compare(case, io, mo, mode):
 
 
 def check_spec(case, io, mode):
-    if io.get("err") == "index_error":
-        return f"IndexError under {mode}: {io.get('msg', '')}"
-    return None
+    if io.get("err") != "index_error":
+        return None
+    b = meta.base(case["_h"])
+    if b.check_spec(case, io, mode) is None:
+        return None     # the owning property's oracle accepts this raise: an invalid input rejected by an explicit check
+    mf = getattr(b, "match_finding", None)
+    if mf and mf(case, io, mode):
+        return None     # counted under the owning property's open finding
+    return f"IndexError under {mode} on a valid input: {io.get('msg', '')}"
 
 
 def select_for_mode(case, mode, tier):
